@@ -372,7 +372,14 @@ class C16(Prop):
     id = "C16"
     lean_modules = ["PkgProofs.Props.C16"]
     generated = ["TagTables"]
-    theorems = []
+    theorems = [
+        "C16.legacy_map_is_peps", "C16.manylinux_eq_spec", "C16.no_glibc_empty", "C16.abi_incompatible_empty",
+        "C16.veto_omits", "C16.legacy_alias_adjacent", "C16.manylinux_within_range",
+        "C16.musl_eq_spec", "C16.musl_absent_empty", "C16.mac_eq_spec", "C16.mac_formats_eq_table",
+        "C16.ios_eq_spec", "C16.ios_newer_superset_partial", "C16.ios_superset_fails_above_9", "C16.ios_within_range",
+        "C16.elf_decode_encode", "C16.ph_decode_encode", "C16.interp_is_first_pt_interp",
+        "C16.interp_none_without_pt_interp", "C16.glibc_parse_render",
+    ]
     rule = ("manylinux/musllinux/_linux_platforms under probes injected at the os.confstr / ctypes / sys.modules['_manylinux'] / "
             "sys.executable (scratch ELF file) / subprocess boundary: glibc 0.x-4.x with the floors 2.4/2.5/2.16/2.17/2.18 and the "
             "legacy versions on purpose, junk version strings, every policy protocol, ABI-matching and mismatching executables; "
@@ -383,7 +390,14 @@ class C16(Prop):
     trusted = ["str.split/strip/splitlines, \\d and int() restricted to ASCII inputs",
                "io.BytesIO as the file object (seek up to 2^63-1, short reads past the end); os.fsdecode/fsencode round trip",
                "the _manylinux policy function is pure; config values as generated"]
-    partial = []
+    partial = ["newer-system-superset: proved for iOS only, and only for an older minor <= 9 (ios_newer_superset_partial; the "
+               "negation at 14.10 -> 15.0 is ios_superset_fails_above_9, a known finding); for manylinux/musllinux/macOS the "
+               "superset relation is checked by the law newer_superset on the real code, not proved",
+               "no-duplicates (injectivity of the tag spellings) is checked by the laws, not proved",
+               "manylinux refinement assumes glibc major >= 2 (for a 0.x/1.x version string the code enumerates that major "
+               "series down to x.0; modelled and compared, outside the statement)",
+               "musl version-string round trip and the policy/ABI probes of _linux_platforms are tied by correspondence only",
+               "real-file semantics of seek/read beyond 2^63 (OSError/ValueError, MemoryError for huge sizes) are not modelled"]
     budget = {"quick": (3000, 2500), "thorough": (50000, 40000)}
 
     # ---- correspondence
